@@ -44,6 +44,9 @@ BOUNDED = {
     "C13": [
         {"name": "c13_graphs", "script": "c13_graphs.py", "args": []},
     ],
+    "C09": [
+        {"name": "c09_crash", "script": "c09_crash.py", "args": []},
+    ],
     "C06": [
         {"name": "c06_push", "script": "c06_push.py", "args": []},
     ],
